@@ -233,4 +233,28 @@ pub fn cache(rec: &mut Recorder, rng: &mut Rng, thorough: bool) {
         rec.impl_violation(format!("after a free-running concurrent soak: {} plans cached (capacity {cap}), queue/map consistent: {}", keys.len(), so == keys));
     }
     rec.count("soak_runs");
+    // every public way of building encoders, mixed, for more distinct block sizes than the capacity: the bound holds
+    // whichever entry point the plans came through, and the object-level encoders equal the block-level ones
+    vc::clear();
+    for k in 1u16..=(cap as u16 + 40) {
+        let t = 2u16;
+        let data = rng.bytes(k as usize * t as usize);
+        let cfg = Oti::new(data.len() as u64, t, 1, 1, 1);
+        let (d2, d3) = (data.clone(), data.clone());
+        let r = guarded(move || {
+            let whole = raptorq::Encoder::new(&d2, cfg);
+            let via_defaults = raptorq::Encoder::with_defaults(&d3, 8);
+            let block = SourceBlockEncoder::new(0, &cfg, &d2);
+            let _ = via_defaults.get_encoded_packets(1);
+            whole.get_block_encoders()[0] == block && whole.get_block_encoders()[0].repair_packets(0, 3) == block.repair_packets(0, 3)
+        });
+        if r != Ok(true) { rec.impl_violation(format!("Encoder::new and SourceBlockEncoder::new build different encoders (or panic) for a block of {k} symbols")); }
+        let (keys, order, counts) = vc::snapshot();
+        let mut so = order.clone(); so.sort();
+        if keys.len() > cap || so != keys || counts.iter().any(|(k, c)| k != c) {
+            rec.impl_violation(format!("after encoders for {k} distinct block sizes were built through Encoder::new, Encoder::with_defaults and SourceBlockEncoder::new, the shared cache holds {} plans (capacity {cap}); queue/map consistent: {}", keys.len(), so == keys));
+            break;
+        }
+        rec.count("mixed_entry_points");
+    }
 }
